@@ -149,6 +149,8 @@ class C08(Prop):
         "sq_add_residue_spec", "sq_count_residues_spec", "sq_checksum_ascii",
         "guess_spec", "msa_guess_spec", "msa_vote_spec", "round_half_away", "iavg_score_rounding", "iexpect_score_rounding",
         "iscvec_spec", "sq_count_residues_text_spec", "textizen_spec", "dsqrlen_dsqdup_spec", "count_nondegenerate_codes",
+        "custom_rejected_calls", "custom_setdegeneracy_post", "custom_ignored_caseins_post",
+        "char_classes_regenerated", "guess_probe_regenerated", "sq_guess_counts_all",
     )]
     claimed = True
     technique = ("Lean 4 proof: table theorems closed by `decide` over the whole regenerated tables (vs a hand-written IUPAC statement), "
@@ -164,14 +166,21 @@ class C08(Prop):
                   "esl_abc_GuessAlphabet: an answer DNA/RNA/amino implies the documented thresholds on the counted composition, never an answer on <= 10 residues, amino iff an amino-only letter occurs (the third documented rule is unreachable); Encode/DecodeType round trip, unknown strings => eslUNKNOWN, ValidateType; "
                   "ValidateSeq status/count/first position/message; esl_sq_Digitize keeps n; ConvertDegen2X; Avg and Expect ScVec fill exactly the degenerate slots; "
                   "WF and the order convention are invariants of every history of constructor calls, with the documented statuses of each call; XAddResidue/CAddResidue never store outside the allocation; CountResidues = sum of equal splits. "
+                  "Round 4: esl_abc_GuessAlphabet IS the documented decision list of the 26 counts (guess_spec); the counting loop of esl_sq_GuessAlphabet on every 8-bit string counts the shortest prefix with 10001 letters; esl_msa_GuessAlphabet = vote over the rows, else the pooled composition, never a fault; "
+                  "esl_abc_IAvgScore/IExpectScore = the exact (weighted) mean rounded half away from zero (unique nearest integer, ties to the larger magnitude, odd), I*ScVec fill exactly the degenerate slots; text-mode esl_sq_CountResidues for every byte string (bytes outside the alphabet skipped, eslERANGE iff start<0 or start+L>n, equal to the digital count on valid text); "
+                  "esl_abc_TextizeN for every window (inside: L symbols and no NUL; reaching a sentinel: NUL there); dsqrlen, dsqdup/dsqcpy, Count on canonical/gap/nonresidue/missing; a rejected SetDegeneracy/SetCaseInsensitive leaves exactly the effect of the accepted prefix of its argument, accepted SetDegeneracy/SetIgnored/SetCaseInsensitive satisfy their documented postconditions; "
+                  "the character-class macros esl_abc_{C,X}Is* on all 256 chars/codes of the 5 alphabets and 78 GuessAlphabet probe compositions are regenerated from the tree and closed by decide. "
                   "The hand model is tied to the tree by an exact differential run (all single bytes, random strings up to 10^4, custom alphabets).")
     level_note = ("Trusted: Lean kernel + propext/Classical.choice/Quot.sound; table dumper; fidelity of the hand model is checked (not proved) by the "
                   "differential run; score/count averaging is compared bit-exactly (binary64/binary32) and monitored against the exact mean; "
                   "esl_abc_GuessAlphabet: theorems are about the integer form of the 2% tests (50*d <= n), which the driver runs next to the "
-                  "binary64 form on every composition (agreement for |n| < 2^40 is an IEEE fact, not a theorem); the counting loop of "
-                  "esl_sq_GuessAlphabet is proved for <= 10000 letters (the cutoff case is tied by the differential run); the integer rounding of "
-                  "IAvgScore/IExpectScore and the I*ScVec wrappers, esl_sq_Checksum's value, esl_sq_Grow's allocation sizes are tied by the "
-                  "differential run only; text-mode esl_sq_CountResidues is not modelled (it dereferences sq->abc, NULL for text sequences).")
+                  "binary64 form on every composition (agreement for |n| < 2^40 is an IEEE fact, not a theorem); "
+                  "the integer-score theorems are over Q (the code sums in binary32 and adds 0.5 in binary64: the driver runs exactly that and is compared "
+                  "with the code; the monitor checks the code's answer against the exact round-half-away mean for |scores| <= 10^6); esl_sq_Checksum's value and "
+                  "esl_sq_Grow's allocation sizes are tied by the differential run only; text-mode esl_sq_CountResidues needs sq->abc set by the caller "
+                  "(NULL for ordinary text sequences: the harness sets it as utest_CountResidues does). "
+                  "Observation (not a violation of C08): esl_msa_GuessAlphabet documents amino+nucleic rows as indeterminate, but an undecided vote always "
+                  "falls through to the pooled pass, which answers amino as soon as one amino-only letter is in the first 10001 letters (proved example in Props).")
     diverge_is_violation = True
     trusted_base = ["table dumper translate/tables_alphabet.py (prints the fields of esl_alphabet_Create() of the working tree)",
                     "hand model of esl_alphabet.c conversion loops and constructors tied by exact differential run (h_alphabet.c, ASan+UBSan)",
@@ -182,7 +191,9 @@ class C08(Prop):
                    "esl_abc_Match: comparisons involving gap/nonresidue/missing/invalid codes return 0.0 (repaired in the tree: the guard tested x twice)",
                    "esl_alphabet_SetEquiv(a, sym, '\\0') is outside the generator (strchr finds the terminating NUL: returns eslOK and maps sym to the invalid code Kp)",
                    "esl_abc_dsqcat with an explicit length treats a NUL byte as inmap[0] = 'unknown' with eslOK (documented: inmap[0] is special); mirrored, not judged"]
-    rule = ("cases = one alphabet (3 standard + coins/dice + random custom alphabets) and a history of conversions on strings of "
+    rule = ("corpus = every single byte 0..255 through digitize/dsqcat/validateseq/text CountResidues/sq+msa GuessAlphabet on each built-in alphabet, "
+            "exact .5 ties of the integer scores on every code, every TextizeN window of a 4-residue sequence, the 10000-letter cutoffs; "
+            "cases = one alphabet (3 standard + coins/dice + random custom alphabets) and a history of conversions on strings of "
             "valid/synonym/lower-case/ignored/invalid/8-bit characters; non-trivial = a case with at least one successful digitisation "
             "of >= 1 residue followed by another operation; distinct by output trace")
     quick_budget_s = 60
@@ -238,7 +249,7 @@ class C08(Prop):
             for off in range(0, 6):
                 for L in range(0, 8):
                     ops.append("textizen off=%d L=%d" % (off, L))
-            ops += ["dsqdup L=known", "dsqdup L=unknown", "dsqnull", "dsqdup L=unknown"]
+            ops += ["dsqdup L=known", "dsqdup L=unknown", "dsqcpy", "dsqnull", "dsqdup L=unknown"]
             out.append({"name": "ties-windows-%s" % name, "ops": ops, "sticky": 1})
         gops = []
         for c in range(1, 256):
@@ -246,6 +257,12 @@ class C08(Prop):
             gops.append("msaguess rows=%s,%s" % (hx(bytes([c]) * 6), hx(bytes([c]) * 6)))
             gops.append("msaguess rows=%s,%s" % (hx(b"ACGTACGTACGT" + bytes([c])), hx(b"ACGUACGUACGU" + bytes([c]))))
         out.append({"name": "guess-allbytes", "ops": gops, "sticky": 0})
+        # the 10000-letter cutoff of the pooled pass hides later rows: rows are classified one by one over their own first 10001
+        # letters, the pooled pass stops inside the first row (documented vote: amino + nucleic rows = undecided -> pooled pass)
+        nuc_r, nuc_d, aa = b"ACGU" * 2501, b"ACGT" * 2501, (b"ACDEFGHIKLMNPQRSTVWY" * 501)[:10004]
+        mops = ["msaguess rows=%s" % ",".join(hx(r_) for r_ in rows) for rows in
+                ([nuc_r, aa], [aa, nuc_r], [nuc_d, aa], [nuc_d, nuc_r], [nuc_r, nuc_d], [b"N" * 10004, aa], [nuc_r[:5000], nuc_r[:5000], aa[:5000]])]
+        out.append({"name": "msa-guess-cutoff", "ops": mops, "sticky": 0})
         # regression (fixed in 9b7e276): the pooled pass of esl_msa_GuessAlphabet stored to ct[26] for a '['
         out.append({"name": "msa-guess-bracket", "ops": ["msaguess rows=%s,%s" % (hx(b"AC[GT-"), hx(b"ACGGT-")),
                                                           "msaguess rows=%s" % hx(b"[[[[acgt[[[")], "sticky": 0})
@@ -333,7 +350,7 @@ class C08(Prop):
             elif r < 0.66:
                 ops.append("dsqrlen")
             elif r < 0.68:
-                ops.append("dsqdup L=%s" % rng.choice(["known", "unknown"]))
+                ops.append(rng.choice(["dsqdup L=known", "dsqdup L=unknown", "dsqcpy"]))
             elif r < 0.73:
                 ops.append("degen2x")
             elif r < 0.90:
